@@ -53,14 +53,15 @@ def atoms(cond, positive=True):
 
 def _cmp(l, op, r, positive):
     a, b = ctext(l), ctext(r)
+    # an order comparison is recorded in both of its spellings:  a < b  holds  <=>  b <= a  does not
     if isinstance(op, ast.Lt):
-        return [("%s < %s" % (a, b), positive)]
+        return [("%s < %s" % (a, b), positive), ("%s <= %s" % (b, a), not positive)]
     if isinstance(op, ast.LtE):
-        return [("%s <= %s" % (a, b), positive)]
+        return [("%s <= %s" % (a, b), positive), ("%s < %s" % (b, a), not positive)]
     if isinstance(op, ast.Gt):
-        return [("%s < %s" % (b, a), positive)]
+        return [("%s < %s" % (b, a), positive), ("%s <= %s" % (a, b), not positive)]
     if isinstance(op, ast.GtE):
-        return [("%s <= %s" % (b, a), positive)]
+        return [("%s <= %s" % (b, a), positive), ("%s < %s" % (a, b), not positive)]
     if isinstance(op, ast.Eq):
         return [("%s == %s" % (a, b), positive)]
     if isinstance(op, ast.NotEq):
@@ -169,7 +170,7 @@ def bool_eval(expr, assign):
         left = expr.left
         res = True
         for op, right in zip(expr.ops, expr.comparators):
-            (t, pol), = _cmp(left, op, right, True)
+            (t, pol) = _cmp(left, op, right, True)[0]
             res = res and (assign[t] == pol)
             left = right
         return res
@@ -186,7 +187,7 @@ def expr_atoms(expr):
     elif isinstance(expr, ast.Compare):
         left = expr.left
         for op, right in zip(expr.ops, expr.comparators):
-            (t, pol), = _cmp(left, op, right, True)
+            (t, pol) = _cmp(left, op, right, True)[0]
             out.append(t)
             left = right
     else:
